@@ -151,6 +151,7 @@ def run_property(prop: str, modules: List[str], tier: str, seed: int) -> int:
     assumptions: List[str] = []
     bounds: List[str] = []
     errors: List[str] = []
+    corpus_violations: List[Any] = []
     # -- 1. import harness modules, concrete corpus validation (oracle vs repo-pinned expectations)
     sys.path.insert(0, str(ROOT))
     for mname in modules:
@@ -169,14 +170,41 @@ def run_property(prop: str, modules: List[str], tier: str, seed: int) -> int:
         bounds += info.get("bounds", [])
         for f in info["failures"]:
             errors.append(f"corpus failure in {mname}: {f}")
+        for v in info.get("violated", []):
+            corpus_violations.append((mname, v))
         for o in info["obligations"]:
             obs.append(Ob(module=mname, **o))
     if errors:
         for e in errors:
             print("HARNESS-ERROR", e)
         _write_evidence(prop, tier, seed, t0, [], [], corpus_cases, functions_encoded, assumptions, bounds,
-                        violations=0, harness_errors=errors, known_hits=[], twins=[])
+                        violations=0, harness_errors=errors, known_hits=[])
         return 3
+    if corpus_violations:
+        # a pinned concrete input on which the property fails on the current tree: already a
+        # concrete run on the real code (no CrossHair, no stubs) -> reported as a violation
+        known = load_known()
+        replay_dir = ROOT / "replays" / prop
+        out = []
+        for mname, v in corpus_violations:
+            cell_j = {k: _jsonable(x) for k, x in v["cell"].items()}
+            args_j = {k: _jsonable(x) for k, x in v["args"].items()}
+            if match_known(known, prop, v["function"], args_j):
+                print(f"KNOWN-FINDING: property={prop} {match_known(known, prop, v['function'], args_j).get('what', '')}")
+                continue
+            replay_dir.mkdir(parents=True, exist_ok=True)
+            h = hashlib.sha1(json.dumps([mname, v["function"], cell_j, args_j], sort_keys=True).encode()).hexdigest()[:12]
+            path = replay_dir / f"{v['function']}-{h}.json"
+            json.dump({"property": prop, "module": mname, "function": v["function"], "cell": cell_j, "args": args_j,
+                       "origin": "concrete corpus case"}, open(path, "w"), indent=1)
+            out.append(str(path))
+        if out:
+            _write_evidence(prop, tier, seed, t0, [], [], corpus_cases, functions_encoded, assumptions, bounds,
+                            violations=len(out), harness_errors=[], known_hits=[],
+                            extra_samples=[{"corpus_violation": v} for _m, v in corpus_violations])
+            for path in out:
+                print(f"VIOLATION property={prop} replay={path}")
+            return 1
 
     pool = Pool(NPROC)
     # order: longest budgets first
@@ -265,11 +293,14 @@ def run_property(prop: str, modules: List[str], tier: str, seed: int) -> int:
 
 
 def _write_evidence(prop, tier, seed, t0, jobs, twins, corpus_cases, functions, assumptions, bounds, *, violations,
-                    harness_errors, known_hits, spurious=(), **_):
+                    harness_errors, known_hits, spurious=(), extra_samples=(), **_):
     ev_dir = ROOT / "evidence"
     ev_dir.mkdir(exist_ok=True)
     paths = sum(j["result"].get("paths", 0) for j in jobs)
     nontrivial = sum(j["result"].get("ok", 0) + j["result"].get("refuted", 0) for j in jobs)
+    if not jobs:
+        # the run ended at the concrete corpus stage: the cases evaluated are the corpus cases
+        paths = nontrivial = corpus_cases
     samples = []
     obl = []
     stubs = set()
@@ -290,6 +321,7 @@ def _write_evidence(prop, tier, seed, t0, jobs, twins, corpus_cases, functions, 
                 samples.append({"obligation": ob.name, "path_inputs": s})
         for ce in r.get("counterexamples", []):
             samples.append({"obligation": ob.name, "counterexample": ce})
+    samples += list(extra_samples)
     if not samples:
         samples = [{"note": "no path reached the assertion"}]
     confirmed = sum(1 for o in obl if o["verdict"] == "confirmed")
